@@ -1,7 +1,8 @@
 (* C09_Basis.v — the basis function of the fit model (FitModel.bspline, nat-indexed) is the SAME function as the one of the
    grid-evaluation model (GridModel.bspline_guarded, Z-indexed): both transcribe splineutil.c's static bspline(), which since
-   fix 33ef56f skips a Cox–de Boor term whose denominator vanishes. Hence every entry of FitModel.bsplinebasis is the
-   right-continuous Cox–de Boor function (BSpline.Bfun, 0/0 := 0) for EVERY knot vector, repeated knots included. *)
+   fix 07dbb30 skips a Cox–de Boor term whose denominator vanishes and since fix F30_1 carries a flag for the side of the
+   order-0 indicator. Hence every entry of FitModel.bsplinebasis is the Cox–de Boor function (BSpline.Bfun, 0/0 := 0) with the
+   one-sided convention of the evaluation properties (BSpline.side_of) for EVERY knot vector, repeated knots included. *)
 From Coq Require Import ZArith List Bool Lia PeanoNat.
 From PS Require Import Arith EvalModel BSpline OFieldKit FitModel GridModel C17_Proofs.
 Import ListNotations.
@@ -14,11 +15,11 @@ Notation K := (T A).
 Definition knZ (kn : nat -> K) : Z -> K := fun z => kn (Z.to_nat z).
 
 (* any arithmetic (binary64 included): term-for-term the same recursion *)
-Lemma fit_bspline_is_guarded (kn : nat -> K) (x : K) : forall n i,
-  FitModel.bspline kn x i n = bspline_guarded (knZ kn) n x (Z.of_nat i).
+Lemma fit_bspline_is_guarded (kn : nat -> K) (x : K) (left : bool) : forall n i,
+  FitModel.bspline kn x i n left = bspline_guarded (knZ kn) left n x (Z.of_nat i).
 Proof.
   induction n as [|n IH]; intro i.
-  - cbn [FitModel.bspline bspline_guarded]. unfold knZ, geb.
+  - cbn [FitModel.bspline bspline_guarded]. unfold knZ, geb, gtb.
     replace (Z.to_nat (Z.of_nat i + 1)) with (i + 1) by lia. rewrite Nat2Z.id. reflexivity.
   - cbn [FitModel.bspline bspline_guarded]. rewrite !IH. unfold knZ, eqK, eqbK.
     replace (Z.of_nat (i + 1)) with (Z.of_nat i + 1)%Z by lia.
@@ -27,23 +28,36 @@ Proof.
     replace (Z.to_nat (Z.of_nat i + 1)) with (i + 1) by lia. rewrite Nat2Z.id. reflexivity.
 Qed.
 
+(* the dimension record (EvalModel.dimn) of a knot vector and an order as the fitter sees them: nknots = length,
+   naxes = nknots-order-1; the stride plays no role for the basis *)
+Definition fit_dim (knots : list K) (order : nat) : @dimn A :=
+  EvalModel.mkDim order (Z.of_nat (length knots)) (Z.of_nat (length knots - order - 1)) 1 (knZ (fun i => nth i knots zero)).
+
 (* over an ordered field: the Cox–de Boor function, no hypothesis on the knots *)
 Variable F : OField A.
-Lemma fit_bspline_is_cox_de_boor (kn : nat -> K) (x : K) n i :
-  FitModel.bspline kn x i n = Bfun (knZ kn) true n (Z.of_nat i) x.
+Lemma fit_bspline_is_cox_de_boor (kn : nat -> K) (x : K) left n i :
+  FitModel.bspline kn x i n left = Bfun (knZ kn) (negb left) n (Z.of_nat i) x.
 Proof. rewrite fit_bspline_is_guarded. apply (bspline_guarded_Bfun F). Qed.
 
+(* side_of of that dimension, spelled out: x < knots[nknots-order-1] *)
+Lemma fit_dim_side (knots : list K) (order : nat) (x : K) :
+  side_of (fit_dim knots order) x = ltb x (nth (length knots - order - 1) knots zero).
+Proof. unfold side_of, fit_dim, knZ. cbn [d_kn d_naxes]. rewrite Nat2Z.id. reflexivity. Qed.
+(* every entry of bsplinebasis is the SPECIFICATION's basis function: Cox–de Boor with the one-sided convention of the
+   evaluation properties (BSpline.side_of: right-continuous below knots[naxes], left-continuous from there upwards) *)
 Lemma fit_basis_entry (knots xs : list K) (order r c : nat) :
   r < length xs -> c < length knots - order - 1 ->
   nth c (nth r (bsplinebasis knots xs order) []) zero
-  = Bfun (knZ (fun i => nth i knots zero)) true order (Z.of_nat c) (nth r xs zero).
+  = Bfun (d_kn (fit_dim knots order)) (side_of (fit_dim knots order) (nth r xs zero)) order (Z.of_nat c) (nth r xs zero).
 Proof.
   intros Hr Hc. unfold bsplinebasis.
   set (kn := fun i => nth i knots zero).
-  set (f := fun x => map (fun c0 => FitModel.bspline kn x c0 order) (seq 0 (length knots - order - 1))).
+  set (f := fun x => map (fun c0 => FitModel.bspline kn x c0 order (leb (kn (length knots - order - 1)) x)) (seq 0 (length knots - order - 1))).
   rewrite (nth_indep (map f xs) [] (f zero)) by (rewrite map_length; exact Hr). rewrite map_nth. unfold f.
-  set (g := fun c0 => FitModel.bspline kn (nth r xs zero) c0 order).
+  set (g := fun c0 => FitModel.bspline kn (nth r xs zero) c0 order (leb (kn (length knots - order - 1)) (nth r xs zero))).
   rewrite (nth_indep (map g (seq 0 (length knots - order - 1))) zero (g 0)) by (rewrite map_length, seq_length; exact Hc).
-  rewrite map_nth, seq_nth by exact Hc. unfold g. cbn [plus]. apply fit_bspline_is_cox_de_boor.
+  rewrite map_nth, seq_nth by exact Hc. unfold g. cbn [plus]. rewrite fit_bspline_is_cox_de_boor.
+  rewrite fit_dim_side. fold kn. unfold fit_dim; cbn [d_kn]. fold kn.
+  rewrite (OF_ltb_leb A F). reflexivity.
 Qed.
 End FitBasis.
